@@ -157,6 +157,16 @@ def base(cfg):
     return _BASE[cfg]
 
 
+def _history_marker(fired):
+    """names the one history behind open finding D27: inside one rm_retry call, rm (or a lookup rm makes) answers
+    'not found' and the existence check that should confirm the deletion is hit by a second fault"""
+    for i, (n, _op, name, kind, site) in enumerate(fired):
+        if site == 'rm_retry' and str(kind).startswith('fnf') and (name == 'rm' or name.endswith('<rm')):
+            if any(g[2] == 'info<exists' and g[4] == 'rm_retry' and 0 < g[0] - n <= 4 for g in fired[i + 1:]):
+                return ['after:notfound-in-rm+fault-in-exists']
+    return []
+
+
 def run_plan(cfg, plan):
     """returns (status, fired, failures)"""
     b = base(cfg)
@@ -200,7 +210,7 @@ def run_plan(cfg, plan):
                 except Exception as e:  # noqa: BLE001
                     d.append('read-back-fails-' + type(e).__name__)
             if d:
-                fails.append((['C19', 'returned-wrong-dataset', fname, 'site:' + fsite] + d[:2],
+                fails.append((['C19', 'returned-wrong-dataset', fname, 'site:' + fsite] + _history_marker(fired) + d[:2],
                               f'config={cfg} plan={plan} fired={fired} diff={d} entries={snap["entries"]} parts={snap["parts"]} bounds={snap["bounds"]}'))
         else:
             fs2 = faultfs.FaultFS()
